@@ -1,4 +1,5 @@
 import DuneVerif.Model.C07
+import DuneVerif.Gen.C07
 /-! line-protocol driver for C07 (formats: see the header of harness/mpi_c07.cc) -/
 open DV DV.C07
 
@@ -35,7 +36,8 @@ def isNamed (fn : String) : Bool := fn == "sum" || fn == "prod" || fn == "min" |
 def isIntrinsic (ty : String) : Bool := ty == "int" || ty == "long" || ty == "double" || ty == "complex"
 def isLight (ty : String) : Bool :=
   isLightArith ty || ty == "cfloat" || ty == "cldouble" || ty == "pod" || ty == "ppair" || ty == "fvp" || ty == "big40"
-def isTrueScalar (ty : String) : Bool := ty != "fv3" && ty != "fvp"
+    || ty == "fv2" || ty == "pairis"
+def isTrueScalar (ty : String) : Bool := ty != "fv3" && ty != "fvp" && ty != "fv2"
 
 structure CollCase where
   comm : String
@@ -82,7 +84,7 @@ def unsupported (k : CollCase) (seq : Bool) (inSize outSize : Nat) : Bool :=
     match k.base, k.form with
     | "red", form =>
       if (redOp k.ty k.fn).isNone then true
-      else if form == "sc" then !(k.n == 1)
+      else if form == "sc" then !(k.n == 1 && isNamed k.fn)
       else !(form == "ip" || form == "io")
     | "bcast", "ptr" | "gather", "ptr" | "gatherv", "ptr" | "scatter", "ptr" | "scatterv", "ptr" | "allgather", "ptr"
     | "allgatherv", "ptr" => false
@@ -148,20 +150,20 @@ def seqOne (k : CollCase) (inp out : List Int) (len displ : Nat) : List Int :=
   | "allgatherv", _ => Seq.allgatherv e inp len out len displ
   | _, _ => out
 
-def runColl (k : CollCase) : String :=
+def runColl (k : CollCase) : Option (List String) :=
   let P := k.ins.length
   let e := k.tm.extent
   if e = 0 || k.lens.length ≠ P || k.displs.length ≠ P || k.fill.length ≠ e
-      || k.ins.any (fun i => i.length % e ≠ 0) then ranksLine (List.replicate P "ERR:malformed")
+      || k.ins.any (fun i => i.length % e ≠ 0) then some (List.replicate P "ERR:malformed")
   else if k.comm == "world" then
     let outs := (List.range P).map fun r =>
       if k.base == "bcast" then k.ins.getD r [] else repeatFill k.fill (outElems k P r k.lens)
     let uns := (List.range P).map fun r => unsupported k false (k.ins.getD r []).length (outs.getD r []).length
-    if uns.any id then ranksLine (List.replicate P "ERR:unsupported")
-    else ranksLine ((specAll k k.root k.ins outs k.lens k.displs).map showCells)
+    if uns.any id then some (List.replicate P "ERR:unsupported")
+    else some ((specAll k k.root k.ins outs k.lens k.displs).map showCells)
   else if k.comm == "self" || k.comm == "seq" then
     let seq := k.comm == "seq"
-    ranksLine ((List.range P).map fun r =>
+    some ((List.range P).map fun r =>
       let inp := k.ins.getD r []
       let len := k.lens.getD r 0
       let displ := k.displs.getD r 0
@@ -169,9 +171,9 @@ def runColl (k : CollCase) : String :=
       if unsupported k seq inp.length out.length then "ERR:unsupported"
       else if seq then showCells (seqOne k inp out len displ)
       else showCells ((specAll k 0 [inp] [out] [len] [displ]).getD 0 []))
-  else "bad-op"
+  else none
 
-def handleColl (toks : List String) : String :=
+def handleColl (toks : List String) : Option (List String) :=
   match toks with
   | _ :: comm :: op :: ty :: _ =>
     match tyMap ty, kvNat toks "root", kvNat toks "n", kvNat toks "pad", kvNat toks "m", kvInts toks "fill",
@@ -183,15 +185,15 @@ def handleColl (toks : List String) : String :=
       let fn := if parts.length = 3 then parts.getD 1 "" else ""
       match (splitBars (afterColon toks)).mapM (fun g => match g with | [t] => parseIntList? t | _ => none) with
       | some ins => runColl { comm, base, fn, form, ty, tm, root, n, pad, m, fill, lens, displs, ins }
-      | none => "bad-op"
-    | _, _, _, _, _, _, _, _ => "bad-op"
-  | _ => "bad-op"
+      | none => none
+    | _, _, _, _, _, _, _, _ => none
+  | _ => none
 
 /-! ### point-to-point -/
 
 def splitSlash (s : String) : List String := s.splitOn "/"
 
-def handleP2p (toks : List String) : String :=
+def handleP2p (toks : List String) : Option (List String) :=
   match toks with
   | _ :: mode :: cont :: ty :: _ =>
     match tyMap ty, kvNat toks "shift" with
@@ -205,7 +207,7 @@ def handleP2p (toks : List String) : String :=
           | _ => none
         | _ => none
       match segs with
-      | none => "bad-op"
+      | none => none
       | some sd =>
         let P := sd.length
         let e := tm.extent
@@ -215,15 +217,15 @@ def handleP2p (toks : List String) : String :=
         let uns := !knownMode || isLight ty || (cont == "sc" && (ty == "char" || rr)) || (cont == "vec" && ty == "char")
           || (cont == "str" && ty != "char") || !(cont == "sc" || cont == "vec" || cont == "str")
           || (chain && shift % P == 0)
-        if uns then ranksLine (List.replicate P "ERR:unsupported")
-        else if sd.any (fun p => p.1.length % e ≠ 0 || p.2.length % e ≠ 0) then ranksLine (List.replicate P "ERR:malformed")
+        if uns then some (List.replicate P "ERR:unsupported")
+        else if sd.any (fun p => p.1.length % e ≠ 0 || p.2.length % e ≠ 0) then some (List.replicate P "ERR:malformed")
         else
           let srcs := sd.map fun p => (p.1, p.1.length / e)
           let dsts := sd.map (·.2)
-          if rr then ranksLine ((Spec.ringRrecv tm (List.replicate e 0) shift srcs dsts).map showCells)
-          else ranksLine ((Spec.ringRecv tm shift srcs dsts).map showCells)
-    | _, _ => "bad-op"
-  | _ => "bad-op"
+          if rr then some ((Spec.ringRrecv tm (List.replicate e 0) shift srcs dsts).map showCells)
+          else some ((Spec.ringRecv tm shift srcs dsts).map showCells)
+    | _, _ => none
+  | _ => none
 
 /-! ### MPIPack -/
 
@@ -285,20 +287,20 @@ def packRank (mode : String) (P shift r : Nat) (items : List It) (dests : List D
     | _ => "bad-op"
   else "ERR:unsupported"
 
-def handlePack (toks : List String) : String :=
+def handlePack (toks : List String) : Option (List String) :=
   match toks with
   | _ :: mode :: _ =>
     match kvNat toks "np", kvNat toks "shift" with
     | some P, some shift =>
       match (afterColon toks).mapM parseItem with
-      | none => "bad-op"
+      | none => none
       | some parsed =>
         match parsed.mapM id with
-        | none => ranksLine (List.replicate P "ERR:unsupported")
+        | none => some (List.replicate P "ERR:unsupported")
         | some pairs =>
-          ranksLine ((List.range P).map fun r => packRank mode P shift r (pairs.map (·.1)) (pairs.map (·.2)))
-    | _, _ => "bad-op"
-  | _ => "bad-op"
+          some ((List.range P).map fun r => packRank mode P shift r (pairs.map (·.1)) (pairs.map (·.2)))
+    | _, _ => none
+  | _ => none
 
 /-! ### datatypes -/
 
@@ -312,9 +314,9 @@ def tmapOf (ty : String) (lay : List Nat) : Option TMap :=
   | "cfloat", [s] | "cldouble", [s] => some (basic s)
   -- no MPITraits specialisation: `sizeof(T)` bytes
   | "llong", [s] | "pod", [s] => some (contiguous s (basic 1))
-  | "fv3", [d, n, w] => some (fieldVector d n (basic w))
+  | "fv3", [d, n, w] | "fv2", [d, n, w] => some (fieldVector d n (basic w))
   | "big96", [d, n, w] | "big40", [d, n, w] => some (bigUnsigned d n (basic w))
-  | "pair", [o1, s1, o2, s2, size] => some (pair o1 (basic s1) o2 (basic s2) size)
+  | "pair", [o1, s1, o2, s2, size] | "pairis", [o1, s1, o2, s2, size] => some (pair o1 (basic s1) o2 (basic s2) size)
   | "pairlc", [o1, s1, o2, s2, size] => some (pair o1 (contiguous s1 (basic 1)) o2 (basic s2) size)
   | "ppair", [o1, s1, o2, s2, isz, oi, os, ss, size] =>
       some (pair oi (pair o1 (contiguous s1 (basic 1)) o2 (basic s2) isz) os (basic ss) size)
@@ -323,36 +325,78 @@ def tmapOf (ty : String) (lay : List Nat) : Option TMap :=
   | "ip", [offG, szG, offL, offA, szL, size] => some (indexPair offG (basic szG) offL (localIndex offA (basic 1) szL) size)
   | _, _ => none
 
-def handleTmap (toks : List String) : String :=
+def handleTmap (toks : List String) : Option (List String) :=
   match toks with
   | _ :: ty :: _ =>
     match kvNat toks "np", kvNats toks "lay" with
     | some P, some lay =>
       match tmapOf ty lay with
       | some tm =>
-        ranksLine (List.replicate P
+        some (List.replicate P
           ("blocks=" ++ showList (flatBlocks (TMap.mergeBlocks (tm.blocks.mergeSort (fun a b => decide (a.1 ≤ b.1))))) ++ " extent=" ++ toString tm.extent ++ " lb=0"))
-      | none => "bad-op"
-    | _, _ => "bad-op"
-  | _ => "bad-op"
+      | none => none
+    | _, _ => none
+  | _ => none
 
 /-! ### rank / size / barrier / refusals -/
 
-def handleMisc (toks : List String) : String :=
+def handleMisc (toks : List String) : Option (List String) :=
   match kvNat toks "np" with
   | some P =>
-    ranksLine ((List.range P).map fun r =>
+    some ((List.range P).map fun r =>
       showList [r, P, 0, 1, Seq.rank, Seq.size, 0, 1, 0, 0, Seq.barrier, 63, r, P, r, P, Seq.rank, Seq.size])
-  | none => "bad-op"
+  | none => none
 
-def handle (line : String) : String :=
-  let toks := tokens line
+/-- every rank's answer to one op line (`none` = not an op line) -/
+def handleOne (toks : List String) : Option (List String) :=
   match toks.head? with
   | some "coll" => handleColl toks
   | some "p2p" => handleP2p toks
   | some "pack" => handlePack toks
   | some "tmap" => handleTmap toks
   | some "misc" => handleMisc toks
-  | _ => "bad-op"
+  | _ => none
+
+/-! ### call histories: the steps run in one process, i.e. on one state of the lazily created singletons -/
+
+/-- the `get()` / `getType()` calls behind one op line -/
+def usesOf (toks : List String) : List Reg.Use :=
+  match toks with
+  | "coll" :: _ :: op :: ty :: _ =>
+    let parts := splitDots op
+    tyUses ty ++ (if parts.headD "" == "red" && parts.length = 3 then opUses ty (parts.getD 1 "") else [])
+  | "p2p" :: _ :: _ :: ty :: _ => tyUses ty
+  | "tmap" :: ty :: _ => tyUses ty
+  | "pack" :: _ => (afterColon toks).flatMap fun t => match splitSlash t with | _ :: ty :: _ => tyUses ty | _ => []
+  | _ => []
+
+def trimSpaces (s : String) : String :=
+  String.ofList ((s.toList.dropWhile (· == ' ')).reverse.dropWhile (· == ' ')).reverse
+
+def handleHist (line : String) : String :=
+  match line.splitOn " : " with
+  | head :: rest =>
+    match kvNat (tokens head) "np" with
+    | none => "bad-op"
+    | some P =>
+      let steps := (((" : ".intercalate rest).splitOn ";").map trimSpaces).filter (· ≠ "")
+      let toks := steps.map tokens
+      -- a step that is served a handle created for another instantiation has no cell-level meaning
+      let flags := Reg.runSteps Gen.singletonTable [] (toks.map usesOf)
+      match toks.mapM handleOne with
+      | none => "bad-op"
+      | some outs =>
+        let outs := (outs.zip flags).map fun p =>
+          if !p.2 then List.replicate P "ERR:foreign-handle"
+          else if p.1.length ≠ P then List.replicate P "ERR:ranks" else p.1
+        ranksLine ((List.range P).map fun r => " ; ".intercalate (outs.map fun o => o.getD r ""))
+  | [] => "bad-op"
+
+def handle (line : String) : String :=
+  let toks := tokens line
+  if toks.head? == some "hist" then handleHist line
+  else match handleOne toks with
+    | some outs => ranksLine outs
+    | none => "bad-op"
 
 def main : IO Unit := runDriver handle
